@@ -374,13 +374,13 @@ struct LifeHttpHandler : public Http::Handler {
     }
     void onDisconnection(const std::shared_ptr<Tcp::Peer>& peer) override { std::lock_guard<std::mutex> g(g_m); PeerLife& l = g_life[peer->getID()]; l.disc++; l.events += 'D'; l.obj = peer; }
 };
-static const char* BEHAVIOUR[] = {"connect-close", "partial-then-close", "exchange-then-close", "half-close-then-read", "reset", "reset-with-pending-response", "silence-until-idle-timeout", "armed-timeout-answered-before", "keepalive-3-requests-then-close", "exchange-then-silence-until-idle-timeout", "slow-request-keeps-worker-busy", "partial-then-immediate-close-while-worker-busy", "send-and-half-close-at-once-while-worker-busy", "request-a-streamed-response-then-reset", "long-poll-then-leave-before-the-response-time-out", "unread-response-then-silence-past-the-idle-time-out-then-close", "silence-past-the-idle-time-out-then-orderly-close", "slow-request-keeps-worker-busy-past-the-idle-time-out", "reset-with-pending-file-response", "file-response-read-to-the-end", "head-completed-past-the-time-out-asks-for-a-streamed-response", "long-poll-until-the-response-time-out-fires", "slow-request-holds-the-worker-for-600-ms", "joins-a-burst-while-the-worker-is-held"};
+static const char* BEHAVIOUR[] = {"connect-close", "partial-then-close", "exchange-then-close", "half-close-then-read", "reset", "reset-with-pending-response", "silence-until-idle-timeout", "armed-timeout-answered-before", "keepalive-3-requests-then-close", "exchange-then-silence-until-idle-timeout", "slow-request-keeps-worker-busy", "partial-then-immediate-close-while-worker-busy", "send-and-half-close-at-once-while-worker-busy", "request-a-streamed-response-then-reset", "long-poll-then-leave-before-the-response-time-out", "unread-response-then-silence-past-the-idle-time-out-then-close", "silence-past-the-idle-time-out-then-orderly-close", "slow-request-keeps-worker-busy-past-the-idle-time-out", "reset-with-pending-file-response", "file-response-read-to-the-end", "head-completed-past-the-time-out-asks-for-a-streamed-response", "long-poll-until-the-response-time-out-fires", "slow-request-holds-the-worker-for-600-ms", "joins-a-burst-while-the-worker-is-held", "unread-response-then-silence-past-the-idle-time-out-then-reads-everything"};
 static std::atomic<int> g_foreign_bytes{0};
 static std::atomic<int> g_own_408{0};
 static std::string g_foreign_detail;
 static void client_behaviour(int port, int b, bool http, Rng& r) {
     if (b == 23) lv::msleep(100 + r.range(0, 150));   // the burst: connects while the worker is held by behaviour 22
-    lv::Conn c; if (!c.open_to(port, b == 5 || b == 15 || b == 18 ? 2048 : 0)) return;
+    lv::Conn c; if (!c.open_to(port, b == 5 || b == 15 || b == 18 || b == 24 ? 2048 : 0)) return;
     std::string buf;
     auto req = [&](const std::string& path) { return http ? "GET " + path + " HTTP/1.1\r\nHost: x\r\nConnection: keep-alive\r\n\r\n" : "hello " + path + "\n"; };
     // the reply must be this connection's own: state left behind by an earlier connection (e.g. its unsent response) must not surface here
@@ -413,6 +413,9 @@ static void client_behaviour(int port, int b, bool http, Rng& r) {
         { bool eof = false; double end = lv::now() + 3.0; std::string t; while (!eof && lv::now() < end) c.read_some(t, 100, 1 << 22, &eof); } break; }
     case 15: {   // a response it never reads, then silence past the idle time-out and a good while longer, then it leaves
         c.send_all(req("/big")); lv::msleep(3200); break; }
+    case 24: {   // like 15, but in the end it reads: the response it let wait, and whatever the idle scan queued behind it in the meantime, is written
+                 // out now, each write completing with more writes still pending behind it
+        c.send_all(req("/big")); lv::msleep(3200); { bool eof = false; double end = lv::now() + 6.0 * lv::load_factor(); std::string t; while (!eof && lv::now() < end) c.read_some(t, 100, 1 << 22, &eof); } break; }
     case 16: lv::msleep(1250); break;   // silent past the idle time-out, then an orderly close - which may reach a busy worker together with the idle scan that has just found it
     case 17: lv::msleep(r.range(0, 300)); c.send_all(req("/slow?ms=1500")); lv::read_response(c, buf, 0, 6000); break;   // keeps the worker away from its loop for longer than the idle time-out
     case 10: c.send_all(http ? req("/slow") : "SLOW /x\n"); { std::string t; if (http) { lv::read_response(c, buf, 0, 3000); } else c.read_some(t, 1500); } break;
@@ -486,7 +489,8 @@ static void run_c08(long cases) {
             if (stallRound) { static const int QUIET[] = {0, 1, 4, 16, 16, 20, 12, 11, 20}; b = k == 0 ? 17 : k <= 2 ? 16 : r.pick(QUIET); }
             if (!stallRound && k == 0 && r.chance(1, 2)) b = 10;
             if (burstRound) b = k == 0 ? 22 : 23;
-            if ((b == 15 || b == 16 || b == 20) && (!http || longTimeouts)) b = 5;
+            if (http && !longTimeouts && !stallRound && !burstRound && r.chance(1, 10)) b = 24;
+            if ((b == 15 || b == 16 || b == 20 || b == 24) && (!http || longTimeouts)) b = 5;
             if (g_opts.num("behaviour", -1) >= 0) b = (int)g_opts.num("behaviour", -1);
             if (!http && (b == 6 || b == 7 || b == 9 || b == 21)) b = r.range(0, 5);
             if (longTimeouts && (b == 6 || b == 9)) b = r.range(10, 12);   // idle time-out / response timers exist on the HTTP endpoint only
@@ -547,8 +551,14 @@ static void run_c08(long cases) {
             { std::lock_guard<std::mutex> g(g_m); dead.swap(LifeHttpHandler::parked()); last = LifeHttpHandler::lastParked(); }
             if (!dead.empty()) { while (lv::now() < last + 0.45) lv::msleep(10); for (int k = 0; k < 200; k++) { bool armed = false; for (auto& w : dead) armed |= w->timeout().isArmed(); if (!armed) break; lv::msleep(10); } }
         }
-        if (http) ep->shutdown(); else listener->shutdown();
-        ep.reset(); listener.reset();
+        {   // a worker that is stuck (dead-locked on one of its own locks, say) never lets the endpoint go: a watchdog turns that into a witness
+            std::atomic<bool> down{false}; std::string srvk = http ? "http" : "tcp";
+            std::thread dog([&] { double end = lv::now() + 20.0 * lv::load_factor(); while (!down.load() && lv::now() < end) lv::msleep(20);
+                if (!down.load()) { violation("c08:server-does-not-shut-down:" + srvk, "shutdown / destruction of the server did not return after the round [" + bt + "]: a framework thread is stuck", wt); g_distinct.flush(); _exit(3); } });
+            if (http) ep->shutdown(); else listener->shutdown();
+            ep.reset(); listener.reset();
+            down = true; dog.join();
+        }
         lv::msleep(20);
     }
 }
